@@ -22,7 +22,7 @@ MC = [
 ]
 MC_THOROUGH = MC + [dict(Channels={"a", "b", "c"}, InitRegistered={"a"}, MaxFaults=3, MaxConns=4, Backoff=2, MaxNow=8)]
 OPS = ["close", "drop", "garbage", "error_reply", "request_reconnect", "key_expired", "data", "data", "register", "refuse_next",
-       "fail_next_key", "delay_token"]
+       "fail_next_key", "delay_token", "fail_next_keepalive"]
 
 
 def random_W(rng: random.Random) -> dict:
@@ -106,6 +106,10 @@ def check(rep: Report, tier: str, seed: int, prop: str = None):
                                {"at": 6001 + off, "op": "register", "ch": "late1"}]
                     jobs.append({"flavour": fl, "channels_init": [ch0], "backoff_s": 1, "keepalive_s": 30, "bound_ms": 1500, "slack_ms": 300,
                                  "script": sc, "stop_at": 40000})
+        # a keep-alive request that fails once: the key must keep being refreshed afterwards
+        for ka in (20, 30):
+            jobs.append({"flavour": "binance", "channels_init": ["spot_user_data", "btcusdt@trade"], "backoff_s": 1, "keepalive_s": ka,
+                         "bound_ms": 1000, "slack_ms": 300, "script": [{"at": 3000, "op": "fail_next_keepalive"}], "stop_at": 1000 * ka * 5})
         # regression scenario of D11: listen key expiry on a connection that stays up
         for fl, ch in (("generic", "c1"), ("binance", "spot_user_data")):
             jobs.append({"flavour": fl, "channels_init": [ch], "backoff_s": 1, "keepalive_s": 30, "bound_ms": 1000, "slack_ms": 300,
